@@ -27,5 +27,34 @@ FloatVals == <<[kind |-> "float", cls |-> "fin", neg |-> FALSE, m |-> "0", e |->
       [kind |-> "float", cls |-> "fin", neg |-> FALSE, m |-> "4503599627370496", e |-> -1126, txt |-> "5e-324"],
       [kind |-> "float", cls |-> "fin", neg |-> TRUE, m |-> "5010420900022432", e |-> 971, txt |-> "-1e+308"],
       [kind |-> "float", cls |-> "fin", neg |-> FALSE, m |-> "4503599627894784", e |-> -20, txt |-> "4294967296.5"]>>
+(* floats around the boundaries of the conversions (to_int / to_byte / to_bigint truncate toward zero and fail only if the   *)
+(* truncated value does not fit; round / floor / ceil at .5 and next to the integers); same record shape as FloatVals          *)
+ConvFloats == <<[kind |-> "float", cls |-> "fin", neg |-> FALSE, m |-> "9007199252643840", e |-> -22, txt |-> "2147483647.5"],
+      [kind |-> "float", cls |-> "fin", neg |-> FALSE, m |-> "9007199250546688", e |-> -22, txt |-> "2147483647.0"],
+      [kind |-> "float", cls |-> "fin", neg |-> FALSE, m |-> "9007199248449536", e |-> -22, txt |-> "2147483646.5"],
+      [kind |-> "float", cls |-> "fin", neg |-> TRUE, m |-> "4503599628419072", e |-> -21, txt |-> "-2147483648.5"],
+      [kind |-> "float", cls |-> "fin", neg |-> TRUE, m |-> "4503599627370496", e |-> -21, txt |-> "-2147483648.0"],
+      [kind |-> "float", cls |-> "fin", neg |-> TRUE, m |-> "4503599629467648", e |-> -21, txt |-> "-2147483649.0"],
+      [kind |-> "float", cls |-> "fin", neg |-> FALSE, m |-> "4503599628419072", e |-> -21, txt |-> "2147483648.5"],
+      [kind |-> "float", cls |-> "fin", neg |-> FALSE, m |-> "8998403161718784", e |-> -45, txt |-> "255.75"],
+      [kind |-> "float", cls |-> "fin", neg |-> FALSE, m |-> "8972014882652160", e |-> -45, txt |-> "255.0"],
+      [kind |-> "float", cls |-> "fin", neg |-> FALSE, m |-> "8989607068696576", e |-> -45, txt |-> "255.5"],
+      [kind |-> "float", cls |-> "fin", neg |-> FALSE, m |-> "4503599627370496", e |-> -44, txt |-> "256.0"],
+      [kind |-> "float", cls |-> "fin", neg |-> TRUE, m |-> "4503599627370496", e |-> -54, txt |-> "-0.25"],
+      [kind |-> "float", cls |-> "fin", neg |-> TRUE, m |-> "6755399441055744", e |-> -53, txt |-> "-0.75"],
+      [kind |-> "float", cls |-> "fin", neg |-> FALSE, m |-> "6755399441055744", e |-> -53, txt |-> "0.75"],
+      [kind |-> "float", cls |-> "fin", neg |-> FALSE, m |-> "8972014882652160", e |-> -46, txt |-> "127.5"],
+      [kind |-> "float", cls |-> "fin", neg |-> FALSE, m |-> "5242880000000000", e |-> -19, txt |-> "10000000000.0"],
+      [kind |-> "float", cls |-> "fin", neg |-> TRUE, m |-> "5242880000000000", e |-> -19, txt |-> "-10000000000.0"],
+      [kind |-> "float", cls |-> "fin", neg |-> FALSE, m |-> "4503599627370496", e |-> 75, txt |-> "170141183460469231731687303715884105728.0"],
+      [kind |-> "float", cls |-> "fin", neg |-> FALSE, m |-> "9007199254740991", e |-> 74, txt |-> "170141183460469212842221372237303250944.0"],
+      [kind |-> "float", cls |-> "fin", neg |-> TRUE, m |-> "4503599627370496", e |-> 75, txt |-> "-170141183460469231731687303715884105728.0"],
+      [kind |-> "float", cls |-> "fin", neg |-> TRUE, m |-> "4503599627370497", e |-> 75, txt |-> "-170141183460469269510619166673045815296.0"],
+      [kind |-> "float", cls |-> "fin", neg |-> FALSE, m |-> "5629499534213120", e |-> -51, txt |-> "2.5"],
+      [kind |-> "float", cls |-> "fin", neg |-> FALSE, m |-> "7881299347898368", e |-> -51, txt |-> "3.5"],
+      [kind |-> "float", cls |-> "fin", neg |-> TRUE, m |-> "7881299347898368", e |-> -51, txt |-> "-3.5"],
+      [kind |-> "float", cls |-> "fin", neg |-> FALSE, m |-> "5066549580791808", e |-> -50, txt |-> "4.5"],
+      [kind |-> "float", cls |-> "fin", neg |-> FALSE, m |-> "9007199254740991", e |-> -54, txt |-> "0.499999999999999944488848768742172978818416595458984375"],
+      [kind |-> "float", cls |-> "fin", neg |-> FALSE, m |-> "4503599627370498", e |-> 0, txt |-> "4503599627370498.0"]>>
 QuickIdx == [int |-> {1, 5, 6, 7, 10, 17}, bigint |-> {1, 5, 6, 7, 14, 17}, byte |-> {1, 2, 5, 9}, float |-> {1, 2, 9, 12, 15, 18}]
 =============================================================================
